@@ -122,7 +122,7 @@ mutual
   def piecesMap : MapItems → Bool → List Piece
     | .nil, _ => []
     | .cons k e r, first =>
-        (if first then [] else [.tok tComma, .sp]) ++ [.tok (tString ([39] ++ k.flatMap quoteByte ++ [39]))] ++
+        (if first then [] else [.tok tComma, .sp]) ++ [.tok (tString (quoteString k))] ++
           [.tok tColon, .sp] ++ pieces e ++ piecesMap r false
   def piecesAccs : AccessList → List Piece
     | .nil => []
@@ -266,9 +266,6 @@ end
 
 /-! ### the image of the parser -/
 
-/-- the printer's quoting of a map key -/
-def quoteKey (k : Bytes) : Bytes := [39] ++ k.flatMap quoteByte ++ [39]
-
 section
 variable (ff : UInt64 → Bytes) (pf : Bytes → Option UInt64)
 
@@ -296,7 +293,7 @@ mutual
     | .cons e r => Canon e ∧ CanonL r
   def CanonM : MapItems → Prop
     | .nil => True
-    | .cons k e r => Quote.unquoteString (quoteKey k) = some k ∧ Canon e ∧ CanonM r
+    | .cons k e r => Quote.unquoteString (quoteString k) = some k ∧ Canon e ∧ CanonM r
   def CanonAL : AccessList → Prop
     | .nil => True
     | .cons a r => CanonA a ∧ CanonAL r
